@@ -412,13 +412,21 @@ class Ctx:
         self.violations = []
         self.known = []
         self.notes = []
+        self.vm_sample = []
 
     def impl(self, cases, timeout=900):
         env = {"PATH": os.environ.get("PATH", ""), "HOME": self.work, "TMPDIR": self.work}
         return run_stream(os.path.join(self.bindir, "verifh"), cases, timeout=timeout, env=env)
 
     def model(self, cases, timeout=900):
-        return run_stream(self.model_bin, cases, timeout=timeout, per_case_recover=False)
+        res = run_stream(self.model_bin, cases, timeout=timeout, per_case_recover=False)
+        if self.tier == "thorough" and len(self.vm_sample) < 300:
+            for c, r in zip(cases, res):
+                if len(self.vm_sample) >= 300:
+                    break
+                if coq_printable(c) and coq_printable(r):
+                    self.vm_sample.append((c, r))
+        return res
 
     def cleanup(self):
         shutil.rmtree(self.work, ignore_errors=True)
@@ -517,3 +525,64 @@ def pmap(fn, items, workers=16):
     from concurrent.futures import ThreadPoolExecutor
     with ThreadPoolExecutor(max_workers=workers) as ex:
         return list(ex.map(fn, items))
+
+
+# ------------------------------------------------------------------ thorough tier: kernel-side cross-checks
+def coq_printable(v):
+    if isinstance(v, X):
+        return False
+    if isinstance(v, str):
+        return all((32 <= ord(ch) < 0xD800 and ord(ch) != 127) or ch == "\n" for ch in v)
+    if isinstance(v, (list, tuple)):
+        return all(coq_printable(x) for x in v)
+    if isinstance(v, dict):
+        return all(coq_printable(k) and coq_printable(x) for k, x in v.items())
+    return True
+
+
+def coq_val(v):
+    if v is None:
+        return "VNull"
+    if v is True:
+        return "(VBool true)"
+    if v is False:
+        return "(VBool false)"
+    if isinstance(v, F):
+        return '(VFloat "%s")' % str(v)
+    if isinstance(v, int):
+        return "(VInt (%d)%%Z)" % v
+    if isinstance(v, str):
+        return '(VStr "%s")' % v.replace('"', '""')
+    if isinstance(v, (list, tuple)):
+        return "(VList [" + "; ".join(coq_val(x) for x in v) + "])"
+    if isinstance(v, dict):
+        ks = sorted(v, key=lambda s: s.encode("utf-8", "surrogateescape"))
+        return "(VMap [" + "; ".join('("%s", %s)' % (k.replace('"', '""'), coq_val(v[k])) for k in ks) + "])"
+    raise TypeError(repr(v))
+
+
+def vm_crosscheck(ctx):
+    """evaluate a sample of this run's cases with vm_compute inside Coq and compare with what the extracted
+    driver answered: takes extraction and the OCaml driver out of the trusted path for that sample"""
+    if not ctx.vm_sample:
+        return {"vm_compute_cases": 0}
+    vf = os.path.join(ctx.work, "VmCheck.v")
+    with open(vf, "w") as f:
+        f.write("From Coq Require Import String List ZArith.\nFrom Bkl Require Import Model.Value Model.Driver.\nImport ListNotations.\n"
+                "Local Open Scope string_scope.\nLocal Open Scope list_scope.\n")
+        f.write("Definition cases : list (value * value) := [\n")
+        f.write(";\n".join("(%s, %s)" % (coq_val(c), coq_val(r)) for c, r in ctx.vm_sample))
+        f.write("].\n")
+        f.write("Definition mismatches : nat := List.length (filter (fun cr => negb (deep_eqb (run_case (fst cr)) (snd cr))) cases).\n")
+        f.write("Definition M := Eval vm_compute in mismatches.\nPrint M.\n")
+    rc, out = sh(["coqc", "-Q", os.path.join(VERIF, "coq"), "Bkl", vf], cwd=ctx.work, timeout=3000)
+    m = re.search(r"M\s*=\s*(\d+)", out)
+    return {"vm_compute_cases": len(ctx.vm_sample), "vm_compute_mismatches": int(m.group(1)) if (rc == 0 and m) else -1,
+            "vm_compute_log": out[-300:] if (rc != 0 or not m) else ""}
+
+
+def coqchk(prop_id):
+    rc, out = sh(["coqchk", "-silent", "-o", "-Q", os.path.join(VERIF, "coq"), "Bkl", "Bkl.Properties." + prop_id], timeout=6000)
+    ax = re.search(r"\* Axioms:\s*(.*?)\n\s*\n", out, re.S)
+    axioms = ax.group(1).strip() if ax else "?"
+    return {"coqchk_rc": rc, "coqchk_axioms": axioms, "coqchk_tail": out[-400:] if rc else ""}
